@@ -129,7 +129,37 @@ ERR_STMT = {
     "start-too-many-args": ["await helper_p(1, 2, 3)"],
     "match-bad-action-event": ['match UtteranceBotAction(script="a").Nope()'],
     "send-startflow-no-id": ["send StartFlow()"],
+    # wave 6 -- runtime errors of a statement that are raised OUTSIDE every try block of the state machine (found by a static scan of
+    # the raise / assert sites reachable from run_to_completion without passing a try, harness/translate/c10_classes.py::escape_sites,
+    # + dynamic search): they leave run_to_completion and are converted into a ColangError event by RuntimeV2_x.process_events (the third
+    # mechanism of the property's anchors).
+    # (a) a wrong-typed / missing / reserved parameter of an action or event is only rejected when the OUTGOING UMIM event is built
+    #     (utils.new_event_dict -> ensure_valid_event, called from _resolve_action_conflicts)
+    "umim-script-int": ["$n = 3", "start UtteranceBotAction(script=$n)"],
+    "umim-await-script-int": ["await UtteranceBotAction(script=3)"],
+    "umim-script-missing": ["start UtteranceBotAction()"],
+    "umim-when-script-int": ["when UtteranceBotAction(script=3)", "  $e = 1", "else", "  $e = 2"],
+    "umim-send-uid-int": ["send Out(uid=3)"],
+    "umim-send-created-int": ["send Out(event_created_at=3)"],
+    "umim-send-event-type": ['send Out(event_type="x")'],
+    "umim-bare-action-no-uid": ['send UtteranceUserActionFinished(final_transcript="hi")'],
+    "umim-finished-transcript-int": ['send UtteranceUserActionFinished(final_transcript=3, action_uid="a", is_success=True)'],
+    "umim-is-success-str": ['send FooActionFinished(action_uid="a", is_success="yes")'],
+    "umim-unsuccess-no-reason": ['send FooActionFinished(action_uid="a", is_success=False)'],
+    # (b) a bad default value expression of a flow parameter / return member is evaluated when the StartFlow event is PROCESSED
+    #     (create_flow_instance, called from _process_internal_events_without_default_matchers); an internal StartFlow event the flow
+    #     instance cannot be created from
+    "default-param-bad": ["start helper_d"],
+    "default-param-bad-await": ["await helper_d"],
+    "default-return-bad": ["start helper_r"],
+    "default-param-bad-activate": ["activate helper_d"],
+    # (c) a bad expression in the meta tag of a flow decorator is evaluated when the flow FINISHES (_log_action_or_intents, called from
+    #     _finish_flow behind the try block of _advance_head_front)
+    "meta-intent-bad": ["await helper_i"],
+    "meta-action-bad": ["await helper_a"],
 }
+# the kinds above: the error is raised outside slide / the matching scan (recorded as phase emit / start / finish)
+ESCAPE_KINDS = tuple(k for k in ERR_STMT if k.startswith(("umim-", "default-", "meta-")))
 ERR_FLOWS = {
     "start-too-many-args": ["flow helper_p $a", "  match NeverHP()", ""],
     "match-child": ["flow helper_m", "  match M()", "  match NeverH()", ""],
@@ -139,6 +169,13 @@ ERR_FLOWS = {
     "ref-bad-event-send": ["flow helper_h", "  match NeverHH()", ""],
     "when-flow-bad-arg": ["flow helper_w $p", "  match NeverHW()", ""],
     "match-child-both": ["flow helper_e", '  match M(x=regex("("))', "  match NeverH()", ""],
+    "default-param-bad": ["flow helper_d $p = \"t\" + 3", "  match NeverHD()", ""],
+    "default-param-bad-await": ["flow helper_d $p = \"t\" + 3", "  match NeverHD()", ""],
+    "default-param-bad-activate": ["flow helper_d $p = \"t\" + 3", "  match NeverHD()", ""],
+    "default-return-bad": ["flow helper_r -> $r = \"t\" + 3", "  match NeverHD()", ""],
+    "startflow-context-params": ["flow helper_p $a", "  match NeverHP()", ""],
+    "meta-intent-bad": ['@meta(user_intent="said {$nope.a}")', "flow helper_i", "  $x = 1", ""],
+    "meta-action-bad": ['@meta(bot_action="did {1/0}")', "flow helper_a", "  $x = 1", ""],
 }
 M_EVENT = {"type": "M", "x": "str"}
 
@@ -411,6 +448,80 @@ def instant_case(body, name, max_events):
     return {"kind": "prog", "src": "\n".join(src) + "\n", "events": script, "meta": meta}
 
 
+# ----------------------------------------------------------------------------- wave 6: errors that ESCAPE run_to_completion (converted by process_events)
+
+# external events run_to_completion cannot process (it raises before any flow is looked at: nothing is pending, nothing can be lost):
+# the conversion step of process_events is exercised whatever the state machine catches itself
+BAD_INPUTS = [
+    {"type": "StartFlow"},                      # KeyError 'flow_id'
+    {"type": "StartFlow", "flow_id": "faulty"},  # KeyError 'source_flow_instance_uid'
+    {"type": "ContextUpdate", "data": 3},       # TypeError: 'int' object is not iterable
+]
+BAD_INPUT_TYPES = ("StartFlow", "ContextUpdate")
+REPORTING_HANDLERS = ("h_esc_dq", "h_esc_sq", "h_plain", "h_type_only", "h_twice")
+ESCAPE_HANDLER_SETS = [["h_type_only"], ["h_plain"], ["h_esc_dq"], ["warning of colang errors", "h_esc_dq", "h_plain"], ["h_esc_sq", "h_twice"], [],
+                       ["warning of colang errors", "notification of colang errors"]]
+# statements of a flow that are legal and make run_to_completion raise in a LATER processing round of the same call
+LATE_ESCAPES = {"send-contextupdate-bad": ["send ContextUpdate(data=3)"],
+                # (only in this family: the sending flow must still be alive when the event is processed, otherwise the start is skipped)
+                "startflow-context-params": ['send StartFlow(flow_id="helper_p", flow_instance_uid="u1", context=1)']}
+
+
+def escape_case(rng, kind, names, first, relap, bad_input):
+    """faulty flow whose erroneous statement raises outside every try block of the state machine (ESCAPE_KINDS / LATE_ESCAPES), or
+    a well-behaved flow next to an external event that run_to_completion rejects (kind None); handler flows `names` observe
+    ColangError; the observers of the external events have an action pending in the very round in which the error is raised"""
+    lines = list(ERR_STMT[kind]) if kind in ERR_STMT else list(LATE_ESCAPES.get(kind, ["$ok = 1"]))
+    body = (lines + ["match Go()"]) if first else (["match Go()"] + lines)
+    body += ["$after = 1", "send After()"]
+    lap = [{"type": "Go"}, {"type": "Next"}]
+    script = [{"type": "Boot"}]
+    if bad_input is not None and rng.random() < 0.5:
+        script.append(dict(bad_input))
+    script += [dict(e) for e in lap]
+    if bad_input is not None:
+        script.append(dict(bad_input))
+        script.append({"type": "Next"})
+    if relap:
+        script += [dict(e) for e in lap]
+    ev_names = []
+    for e in script:
+        if e["type"] not in ev_names and e["type"] not in BAD_INPUT_TYPES:
+            ev_names.append(e["type"])
+    src = hd.handler_src(tr.REPO, names) + ["@active", "flow faulty"] + ["  " + l for l in body] + [""]
+    src += ERR_FLOWS.get(kind, [])
+    src += observer_flows(ev_names, rng.choice(["direct", "direct", "sub"]))
+    src += ["flow main", "  match Never()"]
+    meta = {"mode": "active", "kind": kind or "none", "phase": "escape", "waits_before": 0 if first else 1, "inject_at": 0 if first else 1, "nested": None,
+            "expect_error": kind is not None, "escape": True}
+    if kind is None:
+        meta["quick"] = "bad-input"
+    if names:
+        meta["handlers"] = list(names)
+    if relap:
+        meta["relap"] = True
+    if bad_input is not None:
+        meta["bad_inputs"] = sorted({e["type"] for e in script if e["type"] in BAD_INPUT_TYPES})
+    return {"kind": "prog", "src": "\n".join(src) + "\n", "events": script, "meta": meta}
+
+
+def gen_escape_cases(rng, tier):
+    out = []
+    kinds = list(ESCAPE_KINDS) + list(LATE_ESCAPES)
+    reps = 1 if tier == "quick" else 8
+    n = len(ESCAPE_HANDLER_SETS)
+    for r in range(reps):
+        for i, kind in enumerate(kinds):
+            # every kind with a reporting handler set, with another set / none, as the first statement of the activated flow
+            out.append(escape_case(rng, kind, ESCAPE_HANDLER_SETS[(i + r) % 5], first=False, relap=rng.random() < 0.5, bad_input=None))
+            out.append(escape_case(rng, kind, ESCAPE_HANDLER_SETS[(i + r + 3) % n], first=(i + r) % 3 == 0, relap=rng.random() < 0.3,
+                                   bad_input=rng.choice(BAD_INPUTS) if rng.random() < 0.3 else None))
+        for j, bi in enumerate(BAD_INPUTS):
+            for k in range(2):
+                out.append(escape_case(rng, None, ESCAPE_HANDLER_SETS[(j + 2 * k + r) % n], first=False, relap=bool(k), bad_input=bi))
+    return out
+
+
 def gen_handler_cases(rng, tier, base_cases):
     out = []
     n_sets = len(HANDLER_SETS)
@@ -470,6 +581,7 @@ def gen_cases(rng, tier):
                 nested = None if opts.get("at_instance") else rng.choice([None, None, "if"])
                 cases.append(build_program(stmts, pos, kind, mode, nested, opts))
     cases += gen_handler_cases(rng, tier, cases)
+    cases += gen_escape_cases(rng, tier)
     for body, name in INSTANT_BODIES:
         for me in ([12, 40] if tier == "quick" else [12, 20, 40, 120]):
             cases.append(instant_case(body, name, me))
@@ -500,6 +612,9 @@ class _R:
     round = None
     round_ctx = None
     frame = None
+    resolve_heads = None  # heads handed to the _resolve_action_conflicts call that is running (None outside)
+    emit_flow = None      # flow whose action event is being evaluated / built inside that call
+    state = None
 
 
 def worker_init():
@@ -528,6 +643,11 @@ def worker_init():
         "finish": sm._finish_flow,
         "start_flow": sm._start_flow,
         "create_ref": sm._create_event_reference,
+        "resolve": sm._resolve_action_conflicts,
+        "geve": sm.get_event_from_element,
+        "cue": sm.create_umim_event,
+        "cfi": sm.create_flow_instance,
+        "logai": sm._log_action_or_intents,
     }
     rm.init()
     install()
@@ -656,12 +776,18 @@ def install():
                 st["failed_uids"].append(event.arguments.get("source_flow_instance_uid"))
                 st["failed_flows"].append(str(event.arguments.get("flow_id")))
         rnd = _R.round
-        if rnd is None:
-            return O["pie"](state, event)
-        rnd.pop_begin(state, event)
-        r = O["pie"](state, event)
-        rnd.pop_end(state)
-        return r
+        if st is not None:
+            st["in_pie"] = True
+        try:
+            if rnd is None:
+                return O["pie"](state, event)
+            rnd.pop_begin(state, event)
+            r = O["pie"](state, event)
+            rnd.pop_end(state)
+            return r
+        finally:
+            if st is not None:
+                st["in_pie"] = False
 
     def push_w(state, event):
         if _R.round is not None:
@@ -746,6 +872,64 @@ def install():
                 raise
         return w
 
+    # -- errors of a statement raised OUTSIDE slide / the matching scan (wave 6) ---------------------------------------------------------
+    def _emit_err(flow_state, e):
+        st = _R.st
+        if st is not None and flow_state is not None:
+            st["errs"].append([flow_state.uid, flow_state.flow_id, "emit", type(e).__name__])
+        if _R.round is not None and flow_state is not None:
+            for h in _R.resolve_heads or []:
+                if h.flow_state_uid == flow_state.uid:
+                    _R.round.err_head = h.uid
+                    break
+
+    def resolve_w(state, actionable_heads):
+        prev = _R.resolve_heads
+        _R.resolve_heads, _R.emit_flow = list(actionable_heads), None
+        try:
+            return O["resolve"](state, actionable_heads)
+        finally:
+            _R.resolve_heads = prev
+
+    def geve_w(state, flow_state, element):
+        if _R.resolve_heads is None:
+            return O["geve"](state, flow_state, element)
+        _R.emit_flow = flow_state
+        try:
+            return O["geve"](state, flow_state, element)
+        except Exception as e:  # noqa -- the arguments of the action statement are evaluated a second time when the action event is created
+            _emit_err(flow_state, e)
+            raise
+
+    def cue_w(event, event_args):
+        if _R.resolve_heads is None:
+            return O["cue"](event, event_args)
+        try:
+            return O["cue"](event, event_args)
+        except Exception as e:  # noqa -- the outgoing UMIM event is rejected by utils.new_event_dict (wrong-typed / reserved parameter)
+            _emit_err(_R.emit_flow, e)
+            raise
+
+    def cfi_w(flow_config, flow_instance_uid, flow_hierarchy_position, event_arguments):
+        try:
+            return O["cfi"](flow_config, flow_instance_uid, flow_hierarchy_position, event_arguments)
+        except Exception as e:  # noqa -- the instance cannot be created (bad default value expression, context shared with a parametrised flow)
+            st = _R.st
+            if st is not None and st.get("in_pie"):  # (the matcher also builds temporary instances for `match flow().Finished()`: inside try blocks)
+                st["errs"].append([str(event_arguments.get("source_flow_instance_uid")), flow_config.id, "start", type(e).__name__])
+                if _R.round is not None:
+                    _R.round.start_failed(flow_config.id)
+            raise
+
+    def logai_w(state, flow_state, matching_scores):
+        try:
+            return O["logai"](state, flow_state, matching_scores)
+        except Exception as e:  # noqa -- bad expression in the meta tag of the flow decorator, evaluated when the flow finishes
+            st = _R.st
+            if st is not None:
+                st["errs"].append([flow_state.uid, flow_state.flow_id, "finish", type(e).__name__])
+            raise
+
     def rtc_w(state, ev):
         st = _R.st
         rc = _R.round_ctx
@@ -790,6 +974,11 @@ def install():
     sm._start_flow = handling_w("start_flow")
     sm._create_event_reference = handling_w("create_ref")
     sm._finish_flow = finish_w
+    sm._resolve_action_conflicts = resolve_w
+    sm.get_event_from_element = geve_w
+    sm.create_umim_event = cue_w
+    sm.create_flow_instance = cfi_w
+    sm._log_action_or_intents = logai_w
 
 
 def _close_round(st, rnd):
@@ -900,12 +1089,14 @@ def run_impl(case):
             _R.cur = None
             _R.rt.max_events = max_events0
         call["rtc_calls"] = st["rtc_calls"]
+        call["reported"] = call["out"].count("Reported")  # marker event of the user-written ColangError handlers (hd.HANDLERS)
         call.update({k: st[k] for k in ("slides", "moves", "ievents", "colang_errors", "rtc_exc", "rtc_site", "max_iter_ratio")})
         # every flow INSTANCE in which a statement raised: what became of it by the end of this call
         call["errs"] = len(st["errs"])
         call["leaf"] = list(st["leaf"])
         call["failed_flows"] = sorted(set(st["failed_flows"]))
         call["err_types"] = sorted({e[3] for e in st["errs"]})
+        call["err_phases"] = sorted({e[2] for e in st["errs"]})
         call["phases"] = st["phases"]
         call["handler_errs"] = sorted({e[1] for e in st["errs"] if e[1] in obs.get("handlers", {})})
         for t in st["err_texts"]:
@@ -915,7 +1106,9 @@ def run_impl(case):
         if not (call["budget_hit"] or call["pe_exc"] or state is None):
             seen_uid = set()
             for uid, fid, phase, _t in st["errs"]:
-                if uid in seen_uid:
+                if uid in seen_uid or phase in ("start", "finish"):
+                    # start: the instance was never created (the flow that wanted to start it is failed by the FlowFailed report, if it
+                    # waits for the start); finish: the flow had finished when its decorator's meta tag was evaluated
                     continue
                 seen_uid.add(uid)
                 fs = state.flow_states.get(uid)
@@ -1320,7 +1513,27 @@ def oracle(case, obs):
             return f"slide on acyclic flow {f} made {it} iterations > |elements|+1 = {n + 1}"
     if len(obs["calls"]) != len(case["events"]):
         return "event script not completed"
+    # "is reported as a ColangError event": a report is an event a flow can MATCH. Programs with an activated, total handler flow that
+    # answers every `match ColangError()` with the marker event Reported: (i) every exception that left run_to_completion and was converted
+    # by process_events is delivered in a processing round of its own, in which the handler waits -> one reaction per conversion;
+    # (ii) a call in which ColangError events were processed shows at least one reaction (two errors of ONE round may find the handler busy)
+    hs = obs.get("handlers", {})
+    reporting = [h for h in meta.get("handlers", []) if h in REPORTING_HANDLERS and h in hs]
+    if reporting and all(v[0] for v in hs.values()):
+        for c in obs["calls"]:
+            if c["budget_hit"] or c["pe_exc"]:
+                continue
+            conv = len(c["rtc_exc"])
+            if c.get("reported", 0) < conv * len(reporting):
+                return (f"{conv} exception(s) {c['rtc_exc']} left run_to_completion while processing {c['event']} and were converted into ColangError "
+                        f"events by process_events, but the activated flow(s) {reporting} waiting for `match ColangError()` reacted only "
+                        f"{c.get('reported', 0)} time(s): the converted error is not an event a flow can match")
+            if c["colang_errors"] > 0 and c.get("reported", 0) < 1:
+                return (f"{c['colang_errors']} ColangError event(s) were processed while handling {c['event']} but the activated flow(s) {reporting} "
+                        f"waiting for `match ColangError()` did not react: the error report is not an event a flow can match")
     for c in obs["calls"]:
+        if c["event"] in meta.get("bad_inputs", []):
+            continue  # an external event run_to_completion rejects: nobody can observe it (the clauses on the report and on later events apply)
         if "Seen" + c["event"] not in c["out"]:
             why = f" (run_to_completion raised {c['rtc_exc']})" if c["rtc_exc"] else ""
             return f"observer flow did not react to event {c['event']}{why}: outgoing {c['out'][:6]}"
@@ -1378,12 +1591,20 @@ def signature(case, obs, msg):
             return "error-raised-while-matching"
     if "changed during _advance_head_front" in msg:
         return "frame:bystander-changed"
-    if "run_to_completion raised" in msg or "(advance phase)" in msg or "(handle phase)" in msg or \
+    if "run_to_completion raised" in msg or "(advance phase)" in msg or "(handle phase)" in msg or "(emit phase)" in msg or \
             ("ColangError event(s) were processed in that call" in msg and any(c.get("rtc_site") for c in obs.get("calls", []))):
         # an exception left run_to_completion (the observer missed the event / the instance that raised was not failed / no ColangError
         # was processed by the state machine): WHERE it was raised (outermost statemachine frames) is the structural signature
         for c in obs.get("calls", []):
             for site in c.get("rtc_site", []):
+                # wave 6: raise sites outside every try block that a STATEMENT of a flow reaches (the exception is converted by process_events,
+                # but the round is abandoned: the flow is not failed, pending actions of other flows are lost and their heads stay parked)
+                if "_resolve_action_conflicts" in site:
+                    return "error-raised-while-creating-action-event"
+                if "create_flow_instance" in site or ("_process_internal_events_without_default_matchers" in site and (meta["kind"] in ESCAPE_KINDS or meta["kind"] in LATE_ESCAPES)):
+                    return "error-raised-while-creating-flow-instance"
+                if "_log_action_or_intents" in site:
+                    return "error-raised-while-logging-finished-flow"
                 if "_handle_event_matching" in site:
                     return "error-raised-while-handling-match"
                 if "_process_internal_events_without_default_matchers" in site:
@@ -1454,6 +1675,20 @@ def tags(case, obs):
             t.append("budget-hit")
         if any(c["rtc_exc"] for c in obs["calls"]):
             t.append("escaped-run_to_completion")
+            for c in obs["calls"]:
+                for site in c.get("rtc_site", []):
+                    t.append("escape-site:" + (site[-1] if site else "outside-statemachine"))
+                for x in c["rtc_exc"]:
+                    t.append("converted-error:" + x)
+            if any(c["rtc_exc"] and c.get("reported") for c in obs["calls"]):
+                t.append("converted-error-observed-by-handler")
+        if meta.get("bad_inputs"):
+            t.append("bad-input:" + "+".join(meta["bad_inputs"]))
+        if meta.get("escape"):
+            t.append("family:escape")
+        for c in obs["calls"]:
+            for ph in c.get("err_phases", []):
+                t.append("error-phase:" + ph)
         if any(c["colang_errors"] for c in obs["calls"]):
             t.append("colang-error-event")
         for r in obs["samples"]:
